@@ -20,18 +20,27 @@
   The critical value `z` is the same real number on both sides: it is what `z_value` returns
   (`zValue crit conf = .ok ⟨z⟩`), e.g. from a constant oracle `constCrit z`.
 
+  The clamp.  `ci_wilson` clamps its two bounds into `[0, 1]` before it builds the interval:
+  `low = (mean - span).max(0.)`, `high = (mean + span).min(1.)` (`Proportion.finishWilson`).  In
+  exact arithmetic the clamp never acts on the domain (both roots are proportions, C02); at `RR fl`
+  it can.  Hence (a) for *every* `fl`, without any hypothesis, an `Ok` result of `ciWilson` has
+  `0 ≤ lo ≤ hi ≤ 1` (`ciWilson_ok_in_unit`); (b) the distance theorems keep their constants,
+  because clamping a computed bound towards `[0, 1]` never moves it further from an exact bound that
+  lies in `[0, 1]` (`clamped_bounds_rounding`).  The Wald function `ci_z_normal` does not clamp.
+
   What comes out.  The bound does **not** grow with `z`: every quantity of the Wilson formula is a
   quotient/product/sum of non-negative numbers or a square root (no cancellation), so centre and
   span carry *relative* errors `≤ 7 u`, and `0 ≤ centre`, `centre + |span| ≤ 1` turn that into the
   absolute bound `8 u` for `centre ∓ span` including the final subtraction/addition.  The form
   `C·u·(1 + z²)` asked for is therefore a corollary with `C = 8` (`bounds_rounding_zsq`).
 
-  What needs more than the standard model.  Whether `Interval::new` *accepts* the rounded pair is
-  a comparison of two rounded numbers; the standard model alone does not decide it (see
-  `ciWilson_rounding_statement`, refuted by `ciWilson_rounding_statement_false`).  It is decided
-  (a) when `fl` is monotone and `0 ≤ z` (`ciWilson_rounding`), or (b) when the exact interval is
-  wider than `16 u` (`ciWilson_rounding_of_width`); in general the rounded call returns the
-  rounded pair or `InvalidBounds` (`ciWilson_rounding_general`).
+  What needs more than the standard model.  Whether `Interval::new` *accepts* the rounded, clamped
+  pair is a comparison of two rounded numbers; the standard model alone does not decide it (see
+  `ciWilson_rounding_statement`, refuted by `ciWilson_rounding_statement_false`: the clamp does not
+  help, the offending pair lies strictly inside `(0, 1)`).  It is decided (a) when `fl` is monotone
+  and `0 ≤ z` (`ciWilson_rounding`), or (b) when the exact interval is wider than `16 u`
+  (`ciWilson_rounding_of_width`); in general the rounded call returns the rounded, clamped pair or
+  `InvalidBounds` (`ciWilson_rounding_general`).
 -/
 import StatsCI.Lemmas.WilsonRound
 
@@ -90,6 +99,30 @@ theorem bounds_rounding (hfl : ∀ x, |fl x - x| ≤ u * |x|) (hu0 : 0 ≤ u) (h
   exact bound_err hfl hu0 hu (flCentre_relErr hfl hu0 hu n k hnat (by omega) z)
     (flSpan_relErr hfl hu0 hu n k hnat (by omega) (by omega) z) c0 cs
 
+/-- the bounds `ci_wilson` actually returns are the clamped ones, `max (fl (centre' - span')) 0` and
+    `min (fl (centre' + span')) 1`: they are within the same `8 u` of the exact `centre ∓ span`
+    (clamping towards `[0, 1]` never moves a number away from a proportion), and they are
+    proportions themselves -/
+theorem clamped_bounds_rounding (hfl : ∀ x, |fl x - x| ≤ u * |x|) (hu0 : 0 ≤ u) (hu : u ≤ 1 / 1024)
+    (n k : ℕ) (hnat : ∀ m : ℕ, m ≤ n → fl m = m) (hk : 2 ≤ k) (hkn : k + 2 ≤ n) (z : ℝ) :
+    |max (fl (flCentre fl n k z - flSpan fl n k z)) 0 - (mCentre n k z - mSpan n k z)| ≤ 8 * u ∧
+    |min (fl (flCentre fl n k z + flSpan fl n k z)) 1 - (mCentre n k z + mSpan n k z)| ≤ 8 * u ∧
+    0 ≤ max (fl (flCentre fl n k z - flSpan fl n k z)) 0 ∧
+    min (fl (flCentre fl n k z + flSpan fl n k z)) 1 ≤ 1 := by
+  obtain ⟨a, b⟩ := bounds_rounding hfl hu0 hu n k hnat hk hkn z
+  obtain ⟨c0, _, cs, _⟩ := centre_span_facts n k (by omega) (by omega) z
+  have hc : mCentre n k z = centre n k z := wilsonCentre_val _ _ _
+  have hs : mSpan n k z = span n k z := wilsonSpan_val _ _ _
+  have l1 := neg_abs_le (span (n : ℝ) k z)
+  have l2 := le_abs_self (span (n : ℝ) k z)
+  have hn : (0 : ℝ) < n := by exact_mod_cast (by omega : 0 < n)
+  have acs := abs_span_le_centre (n : ℝ) k z hn (Nat.cast_nonneg k)
+    (by exact_mod_cast (by omega : k ≤ n))
+  refine ⟨(abs_max_zero_sub_le' ?_).trans a, (abs_min_one_sub_le' ?_).trans b,
+    le_max_right _ _, min_le_right _ _⟩
+  · rw [hc, hs]; linarith
+  · rw [hc, hs]; linarith
+
 /-- the same in the form `C · u · (1 + z²)` with `C = 8` (weaker: the factor is not needed) -/
 theorem bounds_rounding_zsq (hfl : ∀ x, |fl x - x| ≤ u * |x|) (hu0 : 0 ≤ u) (hu : u ≤ 1 / 1024)
     (n k : ℕ) (hnat : ∀ m : ℕ, m ≤ n → fl m = m) (hk : 2 ≤ k) (hkn : k + 2 ≤ n) (z : ℝ) :
@@ -138,32 +171,65 @@ example : ∃ (fl : ℝ → ℝ) (u : ℝ) (n k : ℕ), (∀ x, |fl x - x| ≤ u
 /-! ## 2. the lift to `ciWilson` -/
 
 /-- what `ci_wilson` computes at `RR fl` on its domain once `z_value` has answered `z`: the rounded
-    pair of bounds (far end `1` / `0` for one-sided requests) if `Interval::new` finds it ordered,
-    else `InvalidBounds` -/
+    bounds clamped into `[0, 1]` — `max (fl (centre' - span')) 0` and `min (fl (centre' + span')) 1`
+    — (far end `1` / `0` for one-sided requests) if `Interval::new` finds the pair ordered, else
+    `InvalidBounds`.  (The lower bound is clamped from below only: an upper one-sided request is
+    still rejected when `fl (centre' - span') > 1`; likewise a lower one when
+    `fl (centre' + span') < 0`.) -/
 theorem ciWilson_fl (crit : Crit (RR fl)) (conf : Confidence (RR fl)) (n k : ℕ)
     (hnat : ∀ m : ℕ, m ≤ n → fl m = m) (hk : 2 ≤ k) (hkn : k + 2 ≤ n) (z : ℝ)
     (hz : zValue crit conf = .ok ⟨z⟩) :
     ciWilson crit conf n k =
       match conf with
       | .twoSided _ =>
-        if fl (flCentre fl n k z - flSpan fl n k z) ≤ fl (flCentre fl n k z + flSpan fl n k z) then
-          .ok (.twoSided ⟨fl (flCentre fl n k z - flSpan fl n k z)⟩
-                         ⟨fl (flCentre fl n k z + flSpan fl n k z)⟩)
+        if max (fl (flCentre fl n k z - flSpan fl n k z)) 0
+            ≤ min (fl (flCentre fl n k z + flSpan fl n k z)) 1 then
+          .ok (.twoSided ⟨max (fl (flCentre fl n k z - flSpan fl n k z)) 0⟩
+                         ⟨min (fl (flCentre fl n k z + flSpan fl n k z)) 1⟩)
         else .err (.interval .invalidBounds)
       | .upper _ =>
         if fl (flCentre fl n k z - flSpan fl n k z) ≤ 1 then
-          .ok (.twoSided ⟨fl (flCentre fl n k z - flSpan fl n k z)⟩ ⟨1⟩)
+          .ok (.twoSided ⟨max (fl (flCentre fl n k z - flSpan fl n k z)) 0⟩ ⟨1⟩)
         else .err (.interval .invalidBounds)
       | .lower _ =>
         if 0 ≤ fl (flCentre fl n k z + flSpan fl n k z) then
-          .ok (.twoSided ⟨0⟩ ⟨fl (flCentre fl n k z + flSpan fl n k z)⟩)
+          .ok (.twoSided ⟨0⟩ ⟨min (fl (flCentre fl n k z + flSpan fl n k z)) 1⟩)
         else .err (.interval .invalidBounds) := by
   rw [ciWilson_eq_fl crit conf n k hnat hk hkn z hz]
-  cases conf <;> rfl
+  cases conf with
+  | twoSided l => rfl
+  | upper l =>
+    simp only [Confidence.kind, wLo, wHi, max_le_iff, zero_le_one, and_true]
+  | lower l =>
+    simp only [Confidence.kind, wLo, wHi, le_min_iff, zero_le_one, and_true]
+
+/-- for every `fl` whatsoever — no standard model, no monotonicity, no exactness on the counts —,
+    every oracle, every confidence (valid or not) and all counts: an `Ok` result of `ci_wilson` at
+    `RR fl` is a two-sided interval `[lo, hi]` with `0 ≤ lo ≤ hi ≤ 1`.  This is what the clamp buys;
+    before it, a rounded bound could leave `[0, 1]` by up to `8 u`. -/
+theorem ciWilson_ok_in_unit (fl : ℝ → ℝ) (crit : Crit (RR fl)) (conf : Confidence (RR fl))
+    (n k : ℕ) (iv : Interval (RR fl)) (h : ciWilson crit conf n k = .ok iv) :
+    ∃ lo hi : RR fl, iv = .twoSided lo hi ∧ 0 ≤ lo.val ∧ lo.val ≤ hi.val ∧ hi.val ≤ 1 :=
+  ciWilson_ok_unit crit conf n k iv h
+
+/-- non-vacuity of `ciWilson_ok_in_unit`, on a carrier where the clamp does act: with the (absurd)
+    "rounding" `fl = fun _ => 2` every arithmetic result is `2`, a lower one-sided request computes
+    the upper bound `fl (2 + 2) = 2`, and the call returns `[0, 1]` -/
+example : ciWilson (constCrit 1 : Crit (RR (fun _ => 2))) (.lower ⟨1 / 2⟩) 4 2
+    = .ok (.twoSided ⟨0⟩ ⟨1⟩) := by
+  have hq : zValue (constCrit 1 : Crit (RR (fun _ => 2))) (.lower ⟨1 / 2⟩) = .ok ⟨1⟩ := by
+    apply zValue_constCrit
+    simp only [probOk, Bool.and_eq_true, RR.le_iff, Confidence.quantile, RR.zero_val, RR.one_val]
+    norm_num
+  have a : ¬ 2 > 4 := by omega
+  have b : ¬ 2 < 2 := by omega
+  simp only [ciWilson, a, b, if_false, hq, Outcome.bind_ok, finishWilson_eq, Confidence.kind,
+    wLo, wHi]
+  norm_num
 
 /-- standard model only, every real `z`, every kind of confidence: both the exact and the
-    rounded call form a pair of bounds and return it iff it is ordered (`InvalidBounds`
-    otherwise); corresponding bounds are within `8 u` -/
+    rounded call form a pair of (clamped) bounds and return it iff it is ordered (`InvalidBounds`
+    otherwise); corresponding bounds are within `8 u`; all four lie on the right side of `0` / `1` -/
 theorem ciWilson_rounding_general (hfl : ∀ x, |fl x - x| ≤ u * |x|) (hu0 : 0 ≤ u)
     (hu : u ≤ 1 / 1024) (n k : ℕ) (hnat : ∀ m : ℕ, m ≤ n → fl m = m) (hk : 2 ≤ k)
     (hkn : k + 2 ≤ n) (critF : Crit (RR fl)) (critE : Crit Rex) (confF : Confidence (RR fl))
@@ -174,18 +240,22 @@ theorem ciWilson_rounding_general (hfl : ∀ x, |fl x - x| ≤ u * |x|) (hu0 : 0
         (if lo ≤ hi then .ok (.twoSided ⟨lo⟩ ⟨hi⟩) else .err (.interval .invalidBounds)) ∧
       ciWilson critF confF n k =
         (if lo' ≤ hi' then .ok (.twoSided ⟨lo'⟩ ⟨hi'⟩) else .err (.interval .invalidBounds)) ∧
-      |lo' - lo| ≤ 8 * u ∧ |hi' - hi| ≤ 8 * u := by
+      |lo' - lo| ≤ 8 * u ∧ |hi' - hi| ≤ 8 * u ∧ 0 ≤ lo ∧ hi ≤ 1 ∧ 0 ≤ lo' ∧ hi' ≤ 1 := by
   obtain ⟨c0, _, cs, _⟩ := centre_span_facts n k (by omega) (by omega) z
   refine ⟨_, _, _, _, ciWilson_eq_fl critE confE n k (fun _ _ => rfl) hk hkn z hzE,
-    ciWilson_eq_fl critF confF n k hnat hk hkn z hzF, ?_⟩
-  rw [hkind]
-  simp only [flCentre, flSpan, wilsonCentre_val, wilsonSpan_val]
-  exact fin_close hfl hu0 hu confE.kind (flCentre_relErr hfl hu0 hu n k hnat (by omega) z)
-    (flSpan_relErr hfl hu0 hu n k hnat (by omega) (by omega) z) c0 cs
+    ciWilson_eq_fl critF confF n k hnat hk hkn z hzF, ?_, ?_, wLo_nonneg _ _ _ _,
+    wHi_le_one _ _ _ _, wLo_nonneg _ _ _ _, wHi_le_one _ _ _ _⟩
+  all_goals
+    rw [hkind]
+    simp only [flCentre, flSpan, wilsonCentre_val, wilsonSpan_val]
+  · exact (wfin_close hfl hu0 hu confE.kind (flCentre_relErr hfl hu0 hu n k hnat (by omega) z)
+      (flSpan_relErr hfl hu0 hu n k hnat (by omega) (by omega) z) c0 cs).1
+  · exact (wfin_close hfl hu0 hu confE.kind (flCentre_relErr hfl hu0 hu n k hnat (by omega) z)
+      (flSpan_relErr hfl hu0 hu n k hnat (by omega) (by omega) z) c0 cs).2
 
 /-- standard model only: if the exact call returns `[lo, hi]` (it never returns another shape)
-    and `hi - lo ≥ 16 u`, the rounded call returns an interval `[lo', hi']` with both bounds
-    within `8 u` -/
+    and `hi - lo ≥ 16 u`, the rounded call returns an interval `[lo', hi'] ⊆ [0, 1]` with both
+    bounds within `8 u` -/
 theorem ciWilson_rounding_of_width (hfl : ∀ x, |fl x - x| ≤ u * |x|) (hu0 : 0 ≤ u)
     (hu : u ≤ 1 / 1024) (n k : ℕ) (hnat : ∀ m : ℕ, m ≤ n → fl m = m) (hk : 2 ≤ k)
     (hkn : k + 2 ≤ n) (critF : Crit (RR fl)) (critE : Crit Rex) (confF : Confidence (RR fl))
@@ -194,8 +264,8 @@ theorem ciWilson_rounding_of_width (hfl : ∀ x, |fl x - x| ≤ u * |x|) (hu0 : 
     (lo hi : Rex) (hE : ciWilson critE confE n k = .ok (.twoSided lo hi))
     (hw : lo.val + 16 * u ≤ hi.val) :
     ∃ lo' hi' : RR fl, ciWilson critF confF n k = .ok (.twoSided lo' hi') ∧
-      |lo'.val - lo.val| ≤ 8 * u ∧ |hi'.val - hi.val| ≤ 8 * u := by
-  obtain ⟨a, b, a', b', hEe, hFe, h1, h2⟩ :=
+      |lo'.val - lo.val| ≤ 8 * u ∧ |hi'.val - hi.val| ≤ 8 * u ∧ 0 ≤ lo'.val ∧ hi'.val ≤ 1 := by
+  obtain ⟨a, b, a', b', hEe, hFe, h1, h2, _, _, p1, p2⟩ :=
     ciWilson_rounding_general hfl hu0 hu n k hnat hk hkn critF critE confF confE hkind z hzF hzE
   rw [hEe] at hE
   split at hE
@@ -207,7 +277,7 @@ theorem ciWilson_rounding_of_width (hfl : ∀ x, |fl x - x| ≤ u * |x|) (hu0 : 
       have := (abs_le.mp h1).2
       have := (abs_le.mp h2).1
       linarith
-    exact ⟨⟨a'⟩, ⟨b'⟩, by rw [hFe, if_pos hab], h1, h2⟩
+    exact ⟨⟨a'⟩, ⟨b'⟩, by rw [hFe, if_pos hab], h1, h2, p1, p2⟩
   · cases hE
 
 /-- non-vacuity of `ciWilson_rounding_of_width`, with a rounding function that obeys the standard
@@ -229,7 +299,13 @@ example : ∃ (fl : ℝ → ℝ) (u : ℝ) (n k : ℕ) (confF : Confidence (RR f
   have eE := ciWilson_eq_fl (constCrit 1 : Crit Rex) (.twoSided ⟨1 / 2⟩) 4 2
     (fun _ _ => rfl) (by omega) (by omega) _ hzE
   simp only [flCentre, wilsonCentre_val, flSpan, wilsonSpan_val] at eE
-  rw [if_pos (fin_ordered_exact _ 4 2 (by omega) (by omega) (by norm_num))] at eE
+  rw [if_pos (wfin_ordered_exact _ 4 2 (by omega) (by omega) (by norm_num))] at eE
+  obtain ⟨c0, _, cs, _⟩ := centre_span_facts 4 2 (by omega) (by omega) 1
+  have acs := abs_span_le_centre ((4 : ℕ) : ℝ) ((2 : ℕ) : ℝ) 1 (by norm_num) (by norm_num)
+    (by norm_num)
+  have l1 := neg_abs_le (span ((4 : ℕ) : ℝ) ((2 : ℕ) : ℝ) 1)
+  have l2 := le_abs_self (span ((4 : ℕ) : ℝ) ((2 : ℕ) : ℝ) 1)
+  rw [wLo_id_eq _ (by linarith), wHi_id_eq _ (by linarith)] at eE
   refine ⟨badFl, 1 / 1024, 4, 2, .twoSided ⟨1 / 2⟩, .twoSided ⟨1 / 2⟩, 1, _, _, badFl_err,
     by norm_num, le_rfl, badFl_not_monotone, fun m _ => badFl_nat m, by omega, by omega, rfl,
     hzF, hzE, eE, ?_⟩
@@ -258,8 +334,8 @@ theorem ciWilson_rounding (hfl : ∀ x, |fl x - x| ≤ u * |x|) (hu0 : 0 ≤ u) 
       Close (8 * u) iv iv' := by
   obtain ⟨c0, _, cs, _⟩ := centre_span_facts n k (by omega) (by omega) z
   have hu1 : u ≤ 1 := by linarith
-  have oE := fin_ordered_exact confE.kind n k (by omega) (by omega) hz
-  have oF := fin_ordered_fl hfl hu0 hu1 hmono confF.kind n k hnat (by omega) (by omega) hz
+  have oE := wfin_ordered_exact confE.kind n k (by omega) (by omega) hz
+  have oF := wfin_ordered_fl hfl hu0 hu1 hmono confF.kind n k hnat (by omega) (by omega) hz
   have eE := ciWilson_eq_fl critE confE n k (fun _ _ => rfl) hk hkn z hzE
   have eF := ciWilson_eq_fl critF confF n k hnat hk hkn z hzF
   simp only [flCentre, wilsonCentre_val, flSpan, wilsonSpan_val] at eE
@@ -267,7 +343,7 @@ theorem ciWilson_rounding (hfl : ∀ x, |fl x - x| ≤ u * |x|) (hu0 : 0 ≤ u) 
   rw [if_pos oF] at eF
   refine ⟨_, _, eE, eF, ?_⟩
   rw [hkind]
-  exact fin_close hfl hu0 hu confE.kind (flCentre_relErr hfl hu0 hu n k hnat (by omega) z)
+  exact wfin_close hfl hu0 hu confE.kind (flCentre_relErr hfl hu0 hu n k hnat (by omega) z)
     (flSpan_relErr hfl hu0 hu n k hnat (by omega) (by omega) z) c0 cs
 
 /-- the same with a constant oracle answering `z ≥ 0` and valid levels on both sides (the levels
@@ -347,11 +423,14 @@ example : ∃ (fl : ℝ → ℝ) (u : ℝ) (n k : ℕ) (confF : Confidence (RR f
     It is **false** (`ciWilson_rounding_statement_false`): the standard model does not make `fl`
     monotone, so a lower bound can be rounded above an upper bound `2 span < u` away and
     `Interval::new` rejects the pair.  What is true: the bounds themselves are always within
-    `8 u` (`bounds_rounding`, `ciWilson_rounding_general`); the rounded call succeeds when `fl` is
-    monotone and `0 ≤ z` (`ciWilson_rounding`) or when the exact interval is wider than `16 u`
+    `8 u` (`bounds_rounding`, `clamped_bounds_rounding`, `ciWilson_rounding_general`); the rounded
+    call succeeds when `fl` is monotone and `0 ≤ z` (`ciWilson_rounding`) or when the exact interval is wider than `16 u`
     (`ciWilson_rounding_of_width`).  (For a monotone `fl` and a *negative* `z` on a one-sided
     request — level below `1/2` — the exact bound `centre + |span|` can be closer to the far end
-    `1` than `8 u` when `n ≳ 1/u`, so the width condition cannot simply be dropped there.) -/
+    `1` than `8 u` when `n ≳ 1/u`, so the width condition cannot simply be dropped there: the
+    clamp does not rescue this case either, the lower bound is clamped from below only and
+    `Interval::new(low, 1.)` still rejects a `low` rounded above `1`.)  The clamp into `[0, 1]`
+    leaves the refutation untouched: the witness pair lies strictly inside `(0, 1)`. -/
 def ciWilson_rounding_statement : Prop :=
   ∃ C : ℝ, ∀ (fl : ℝ → ℝ) (u : ℝ), (∀ x, |fl x - x| ≤ u * |x|) → 0 ≤ u → u ≤ 1 / 1024 →
     ∀ n k : ℕ, (∀ m : ℕ, m ≤ n → fl m = m) → 2 ≤ k → k + 2 ≤ n →
@@ -379,7 +458,7 @@ theorem ciWilson_rounding_statement_false : ¬ ciWilson_rounding_statement := by
   have eE := ciWilson_eq_fl (constCrit (1 / 4096) : Crit Rex) (.twoSided ⟨1 / 2⟩) 4 2
     (fun _ _ => rfl) (by omega) (by omega) _ hzE
   simp only [flCentre, wilsonCentre_val, flSpan, wilsonSpan_val] at eE
-  rw [if_pos (fin_ordered_exact _ 4 2 (by omega) (by omega) (by norm_num))] at eE
+  rw [if_pos (wfin_ordered_exact _ 4 2 (by omega) (by omega) (by norm_num))] at eE
   obtain ⟨iv', hF, _⟩ := h badFl (1 / 1024) badFl_err (by norm_num) le_rfl 4 2
     (fun m _ => badFl_nat m) (by omega) (by omega) _ _ (.twoSided ⟨1 / 2⟩) (.twoSided ⟨1 / 2⟩) rfl
     (1 / 4096) hzF hzE _ eE
